@@ -123,6 +123,23 @@ def run(ctx):
             for ti, t in enumerate(ts):
                 cases.append(("tour%d#%d" % (rep_i, ti), render([edges[e][1] for e in t], cfg, data)))
         rep.notes["graph_edges_covered"] = len(edges)
+        # random walks through the same graph: longer histories and other orders than the edge cover takes
+        out = {}
+        for i, (f, a, t) in enumerate(edges):
+            out.setdefault(f, []).append(i)
+        wrng = random.Random(ctx.seed * 7919 + 5)
+        for wi in range(40 if quick else 400):
+            s0, walk = edges[0][0], []
+            for _ in range(wrng.randrange(20, 70)):
+                cand = out.get(s0)
+                if not cand:
+                    break
+                e = wrng.choice(cand)
+                if edges[e][1][0] == "free" and wrng.random() < 0.9:     # (the walk ends there: not too early)
+                    continue
+                walk.append(e)
+                s0 = edges[e][2]
+            cases.append(("walk#%d" % wi, render([edges[e][1] for e in walk], cfg, data)))
         # directed: configurations that fail to initialise must fail cleanly
         for k, bad in enumerate([{"fsg": os.path.join(data, "goforward3.fsg")}, {"jsgf": "/nonexistent.gram"},
                                  {"dict": "/nonexistent.dic"}, {"hmm": "/nonexistent"}]):
